@@ -420,6 +420,7 @@ pub fn run(args: &Args) -> i32 {
     rep.assume("expiry is only asserted after 2T + 250 ms without activity on every flow; waits whose overshoot exceeds 150 ms make the history inconclusive");
     rep.assume("loopback UDP does not lose datagrams at these rates; the SOCKS5 forwarder's multiplexer is driven by seeded histories of its own (props/c07_s5.rs) against a relaying SOCKS5 proxy");
     let seed = args.seed;
+    if args.has_flag("--only-s5") { crate::props::c07_s5::run_part(&rep, args); return rep.finish(); }
     if let Some(i) = args.extra.iter().position(|x| x == "--history") {
         // debugging aid: one history with the library's log
         let h: u64 = args.extra.get(i + 1).and_then(|x| x.parse().ok()).unwrap_or(0);
